@@ -491,3 +491,11 @@ contract(F + "Continuum.from_csv",
                                 "RI(T())"])},
          hooks=[("before", "for row in reader: ...", "IN = filerows(csv_file)")],
          serves={"C18"})
+
+contract(F + "Continuum.__getitem__#annotator",
+         params={"self": CONT(), "keys": StrT()}, returns=ObjT("SetUnit"), modifies=[],
+         raises={"KeyError": {"iff": "not Ann(self)[keys]"}},
+         ensures=[cl("fresh_obj(result) and disjoint_state(result, self)", "C13 C14 C19", name="a-deep-copy"),
+                  cl("members(result) == Us(self)[keys] and size(result) == Cnt(self)[keys] and seqof(result) == Useq(self)[keys]",
+                     "C13 C19", name="the-annotator's-units-in-order")],
+         serves={"C13", "C14", "C19"})
